@@ -158,10 +158,11 @@ type world struct {
 	stallRng           [2]*rand.Rand
 	schedRng           *rand.Rand
 
-	epoch      int32
-	aborted    int32
-	pending    sync.Map // handler context -> *seenRec awaiting its second view
-	handlersIn int64
+	epoch       int32
+	aborted     int32
+	failed      int32    // oracle failures recorded for this configuration
+	pending     sync.Map // handler context -> *seenRec awaiting its second view
+	handlersIn  int64
 	handlersOut int64
 
 	evals     int64
@@ -252,6 +253,7 @@ func (w *world) isAborted() bool { return atomic.LoadInt32(&w.aborted) == 1 }
 // fail reports an oracle failure; at most 8 per key and configuration are kept in the report
 // so that one failure class cannot crowd out the others.
 func (w *world) fail(key, what, human string) {
+	atomic.AddInt32(&w.failed, 1)
 	w.dmu.Lock()
 	if w.failN == nil {
 		w.failN = map[string]int{}
@@ -263,6 +265,17 @@ func (w *world) fail(key, what, human string) {
 		return
 	}
 	statFail(w.st, w.cw.Total, key, w.spec.String()+": "+what, human)
+}
+
+// abortNow gives up on the configuration at once (a structural violation was seen: the byte
+// streams are no longer worth driving): the connections are cut so that every pending call
+// returns instead of waiting for the watchdog.
+func (w *world) abortNow() {
+	if atomic.CompareAndSwapInt32(&w.aborted, 0, 1) {
+		for _, ep := range w.allEps() {
+			ep.conn.Close()
+		}
+	}
 }
 
 func (w *world) count(k string) { statCount(w.st, k) }
